@@ -32,6 +32,7 @@ INSTANCES = [
     ("select-hidden", "pipe.verbs", "select", "ColumnNotFoundError", ["not in table", "_cache.cols"], "re-selecting a hidden column"),
     ("rename-unknown", "pipe.verbs", "rename", "ValueError", ["difference", "name_to_uuid"], "rename of a column that does not exist"),
     ("rename-duplicate", "pipe.verbs", "rename", "ValueError", ["name_map.values()", "name_to_uuid"], "rename producing a duplicate name"),
+    ("rename-duplicate-new", "pipe.verbs", "rename", "ValueError", ["len(set(", "name_map.values()|new_names"], "rename giving two columns the same new name"),
     ("rename-valtype", "pipe.verbs", "rename", "TypeError", ["isinstance(v, str)"], "non-string new name"),
     ("group_by-hidden", "pipe.verbs", "group_by", "ValueError", ["_uuid not in", "uuid_to_name"], "group_by of a non-selected column"),
     ("summarize-empty", "pipe.verbs", "summarize", "ValueError", ["len(kwargs) == 0", "partition_by"], "ungrouped summarize without arguments"),
@@ -113,7 +114,7 @@ def run(chk):
             if name.split(".")[-1] != exc:
                 continue
             ctx = _context(r, f)
-            if all(n in ctx for n in needles):
+            if all(any(alt in ctx for alt in n.split("|")) for n in needles):
                 hit = r
                 break
         chk.ob("R1", mod, hit or f, f"{iid}: {what} -> {exc}", hit is not None,
